@@ -112,7 +112,7 @@ def main():
             dst = os.path.join(VERIF, "seeded", name)
             os.makedirs(dst, exist_ok=True)
             for fn in os.listdir(src):
-                if fn.endswith(".bin") or os.path.isdir(os.path.join(src, fn)):
+                if fn.endswith(".bin") or os.path.isdir(os.path.join(src, fn)) or os.path.abspath(src) == os.path.abspath(dst) or fn == "meta.json":
                     continue
                 shutil.copy(os.path.join(src, fn), os.path.join(dst, fn))
             json.dump(meta, open(os.path.join(dst, "meta.json"), "w"), indent=1)
